@@ -37,7 +37,7 @@ var (
 	errValueOverflow    = errors.New("数值超出字段类型的范围")
 	optionsCache        = make(map[string]optionsCacheValue)
 	cacheLock           sync.RWMutex
-	structRequiredCache = make(map[reflect.Type]requiredCacheValue)
+	structRequiredCache = make(map[requiredCacheKey]requiredCacheValue)
 	structCacheLock     sync.RWMutex
 )
 
@@ -46,6 +46,12 @@ type (
 		key     string
 		options *fieldOptions
 		err     error
+	}
+
+	// requiredCacheKey：结构体是否必填取决于标签键（json、form、path……）和类型两者。
+	requiredCacheKey struct {
+		tag string
+		tp  reflect.Type
 	}
 
 	requiredCacheValue struct {
@@ -529,8 +535,9 @@ func setValue(kind reflect.Kind, value reflect.Value, str string) error {
 }
 
 func structValueRequired(tag string, tp reflect.Type) (bool, error) {
+	key := requiredCacheKey{tag: tag, tp: tp}
 	structCacheLock.RLock()
-	val, ok := structRequiredCache[tp]
+	val, ok := structRequiredCache[key]
 	structCacheLock.RUnlock()
 	if ok {
 		return val.required, val.err
@@ -538,7 +545,7 @@ func structValueRequired(tag string, tp reflect.Type) (bool, error) {
 
 	required, err := implicitValueRequiredStruct(tag, tp)
 	structCacheLock.Lock()
-	structRequiredCache[tp] = requiredCacheValue{
+	structRequiredCache[key] = requiredCacheValue{
 		required: required,
 		err:      err,
 	}
